@@ -80,13 +80,18 @@ PROPS = {
     },
     "C11": {
         "proof_files": ["Proofs/ConfigFacts.v"],
-        "runs": [{"engine": "profile", "args": [], "n_quick": 800, "n_thorough": 80000, "netns": True}],
+        "runs": [{"engine": "profile", "args": [], "n_quick": 800, "n_thorough": 80000, "netns": True},
+                 {"engine": "resolver", "args": ["-mode", "e2e"], "n_quick": 500, "n_thorough": 30000, "netns": True},
+                 {"engine": "resolver", "args": ["-mode", "hist"], "n_quick": 60, "n_thorough": 3000, "netns": True}],
         "trivial_tags": [r"^none$"],
         "rule": "random ordered profile lists (0-6 entries: v4/v6 nested subnets, MACs in three notations, interface conditions on "
                 "lo and a veth pair, unconditional ids; built with Profiles.Set) x 5 client tuples (absent src/dst/MAC, v4-mapped); "
-                "non-trivial = some profile id selected",
+                "non-trivial = some profile id selected. e2e: the real proxy in front of the real resolver (DoH over TLS, cache on), four "
+                "profiles chosen by client address, concurrent UDP and pipelined TCP clients of different profiles asking the same names "
+                "while requests are outstanding: every reply must carry the answer fetched under the client's own profile. hist: the "
+                "request path and ResolveInfo.Profile are the profile id (C11 spec in the history engine)",
         "assumptions": ["net.ParseCIDR / ParseMAC / InterfaceByName are environment: the harness reports their results to the model",
-                        "the id-to-URL wiring in run.go (package main) is covered by the resolver/e2e engines of C06, not here"],
+                        "the id-to-URL wiring in run.go (package main) is exercised by the daemon engine of C10, not here"],
     },
     "C12": {
         "proof_files": ["Proofs/DiscoveryFacts.v", "Proofs/ConfigFacts.v"],
